@@ -6,9 +6,9 @@ import (
 	"strings"
 )
 
-// oneMemberOnly checks a union: a struct of pointers, of which one is meant to
+// OneMemberOnly checks a union: a struct of pointers, of which one is meant to
 // be set. With several of them, only one would be taken into account.
-func oneMemberOnly(kind string, union any) error {
+func OneMemberOnly(kind string, union any) error {
 	value := reflect.ValueOf(union)
 	unionType := value.Type()
 
